@@ -15,7 +15,7 @@ import OtelVerif.Model.LogRecord
 Output: `p0:<kind>:n=<OnEmit calls>:x=[[<record>;…];…] | p1:…`, or `CRASH asan:heap-use-after-free` when an exporter
 reads caller memory that has been freed. -/
 namespace Driver
-open Otel Otel.Attr Otel.LogRecord
+open Otel Otel.SAttr Otel.LogRecord
 
 def parseIdentity (s : String) : Option Identity :=
   match s.splitOn "/" with
